@@ -43,8 +43,11 @@ ASSUMPTIONS = [
 ]
 WALL_BUDGET = {"quick": 900.0, "thorough": 3300.0}
 
-OPS = ["START", "GO", "SPAWN", "DSEND", "FIN", "FAIL", "STOP", "RESTORE", "ADV", "RUDE", "KFIN"]
-SENDS = ("GO", "SPAWN", "DSEND", "FIN", "FAIL", "RUDE", "KFIN")
+OPS = ["START", "GO", "SPAWN", "DSEND", "FIN", "FAIL", "STOP", "RESTORE", "ADV", "RUDE", "KFIN", "QGO", "QRE"]
+SENDS = ("GO", "SPAWN", "DSEND", "FIN", "FAIL", "RUDE", "KFIN", "QGO", "QRE")
+# QGO / QRE: send GO / REA (re-entering self-transition of A, restarts its service under the SAME owner) WITHOUT waiting for
+# the queue to drain, so that the next operation (stop(), restore, ...) meets an event that is still queued (async engine)
+WIRE = {"QGO": "GO", "QRE": "REA"}
 CTL: Dict[str, Any] = {}
 _M: Dict[str, Any] = {}
 
@@ -140,7 +143,7 @@ def _machines(eng: int) -> Any:
                         "GO": "B", "SPAWN": {"actions": [spawn]},
                         "DSEND": {"actions": [A.raise_({"type": "LATE"}, delay=40)]},
                         "LATE": {"actions": ["late"]},
-                        "FIN": "F", "FAIL": "X", "RUDE": "Y",
+                        "FIN": "F", "FAIL": "X", "RUDE": "Y", "REA": {"target": "A", "reenter": True},
                         "KFIN": {"actions": [A.send_to("sysK", "KFIN")]},
                     },
                 },
@@ -249,7 +252,7 @@ def _run_sync(ops: List[str]) -> Optional[str]:
             if before in ("running", "done", "error") and (_snapshot_state(it) != pre or len(CTL["log"]) != nlog):
                 return f"start() in status {before} is not idempotent: {pre} -> {_snapshot_state(it)}"
         elif op in SENDS:
-            it.send(op)
+            it.send(WIRE.get(op, op))
             if before != "running":
                 if _snapshot_state(it) != pre or len(CTL["log"]) != nlog or len(it._event_queue) != 0:
                     return f"send({op}) in status {before} had an effect: {pre} -> {_snapshot_state(it)}, queue {len(it._event_queue)}"
@@ -320,7 +323,11 @@ def _run_async(ops: List[str]) -> Optional[str]:
     async def go() -> None:
         it = Interpreter(m)
         everyone: List[Any] = []
+        prev = None
         for op in ops:
+            if prev in WIRE and op != "STOP":
+                await settle(it)     # an unsettled send only matters right before stop()
+            prev = op
             before = it.status
             pre = _snapshot_state(it)
             nlog = len(CTL["log"])
@@ -343,8 +350,9 @@ def _run_async(ops: List[str]) -> Optional[str]:
                     return
             elif op in SENDS:
                 qs = it._event_queue.qsize()
-                await it.send(op)
-                await settle(it)
+                await it.send(WIRE.get(op, op))
+                if op not in WIRE:
+                    await settle(it)
                 if before != "running":
                     if before == "uninitialized":
                         pass  # the async engine queues events sent before start(); they are processed once it starts
